@@ -3,6 +3,7 @@
 //   enc <fmt> <tree tokens>   build the DOM with the public API, print hex(Xml::encode(tree, fmt))
 //   rt  <fmt> <tree tokens>   dump(Xml::decode(Xml::encode(tree, fmt)))
 //   sub <hex> <k>             decode, keep only the k-th node (document order, k mod count), release the tree, dump the survivor
+//   mut <hex> <k> <j> <how>   decode, detach child j of node k with remove|removee|clear|put, release the rest, dump the child
 //   desc <hex>                decode, then `while (first child is an element) e = e.child(0);` on the only handle, dump e
 //   deep <n> <kind>           decode a document nested n levels (0: closed, 1: closed then mismatched end tag, 2: unclosed, 3: closed around the text "x")
 // tree tokens (preorder): E <hextag> <nattr> {<hexname> <hexval>} <nchildren> children... | T <hextext>
@@ -142,6 +143,33 @@ static std::string step(const Toks& t)
 			c = pre[(size_t)(num(t[2]) % (long long)pre.size())];
 		}
 		std::string out = c.parent().isnull() ? "R+" : "R!";
+		dump(c, out);
+		const String& tx = c.text();
+		out += " t=" + hex(*tx, tx.length());
+		return out;
+	}
+	if (op == "mut" && t.size() == 5) {
+		// take the j-th child c of the k-th node p (document order) of the decoded tree, remove it from p with the
+		// mutator named by t[4], look at c.parent() while p is alive, release everything but c, look again
+		Exact d(unhex(t[1]));
+		Xml c;
+		std::string out;
+		{
+			Xml r = Xml::decode(String(d.p, (int)d.n));
+			if (!r) return "null";
+			std::vector<Xml> pre;
+			preorder(r, pre);
+			Xml p = pre[(size_t)(num(t[2]) % (long long)pre.size())];
+			if (p.isText() || p.numChildren() == 0) return "skip";
+			int j = (int)(num(t[3]) % p.numChildren());
+			c = p.child(j);
+			if (t[4] == "remove") p.remove(j);
+			else if (t[4] == "removee") p.remove(c);
+			else if (t[4] == "clear") p.clear();
+			else p.put(String("t"));
+			out = c.parent().isnull() ? "M+" : "M!";
+		}
+		out += c.parent().isnull() ? "R+" : "R!";
 		dump(c, out);
 		const String& tx = c.text();
 		out += " t=" + hex(*tx, tx.length());
